@@ -79,6 +79,8 @@ def value_of(s):
         return d
     if sh == "jsonml":
         return ["root", {"at": A[s["t"]]}, A[s["v"]], ["c", A[s["v"]]]]
+    if sh == "jsonmlattr":
+        return ["root", {"at": A[s["t"]], "n": 1, "b": True, "l": [A[s["v"]], "y"], "o": {"k": A[s["v"]]}}, A[s["v"]]]
     if sh == "ini":
         k, v = A[s["k"]], A[s["v"]]
         return {"main": {k: v}, "sections": {"sec": {k: v, "l": [v, "x"]}}}
